@@ -196,9 +196,16 @@ where
         Ok(trailer)
     }
     pub fn scan(&self) -> impl Iterator<Item = Result<ScanItem>> + '_ {
-        let xref_offset = self.backend.locate_xref_offset().unwrap();
         // the startxref value, like every offset, is relative to the header
-        let slice = self.backend.read(self.start_offset .. self.start_offset + xref_offset).unwrap();
+        let slice = self.backend.locate_xref_offset().and_then(|xref_offset| {
+            let end = self.start_offset.checked_add(xref_offset).ok_or(PdfError::Invalid)?;
+            self.backend.read(self.start_offset .. end)
+        });
+        // a file without a usable startxref yields a single error instead of panicking
+        let (slice, mut error) = match slice {
+            Ok(slice) => (slice, None),
+            Err(e) => (&[][..], Some(e))
+        };
         let mut lexer = Lexer::with_offset(slice, self.start_offset);
         
         fn skip_xref(lexer: &mut Lexer) -> Result<()> {
@@ -210,6 +217,9 @@ where
 
         let resolver = StorageResolver::new(self);
         std::iter::from_fn(move || {
+            if let Some(e) = error.take() {
+                return Some(Err(e));
+            }
             loop {
                 let pos = lexer.get_pos();
                 match parse_indirect_object(&mut lexer, &resolver, self.decoder.as_ref(), ParseFlags::all()) {
